@@ -4,10 +4,18 @@ import Walrus.Driver.Util
 /-! parsing / printing of operator tokens, shared by the `builder` and `body` requests -/
 namespace Walrus.Driver
 
+def parseBT (r : List Char) : BT :=
+  match r with
+  | 'v' :: t => .val (String.ofList t)
+  | 'y' :: n => .idx ((String.ofList n).toNat?.getD 0)
+  | _ => .empty
+
 def parseArg (s : String) : Arg :=
   match s.toList with
-  | 'b' :: r => .bt (String.ofList r)
-  | 'i' :: ':' :: r => .imm (String.ofList r)
+  | 'b' :: r => .bt (parseBT r)
+  | 'i' :: ':' :: r => match (String.ofList r).toNat? with
+      | some n => .num n
+      | none => .imm (String.ofList r)
   | c :: ':' :: r => match (String.ofList r).toNat? with
       | some n => .ref (String.singleton c) n
       | none => .imm s
@@ -20,8 +28,11 @@ def parseOp (s : String) : Op :=
 
 def showArg : Arg → String
   | .ref sp n => s!"{sp}:{n}"
+  | .num n => s!"i:{n}"
   | .imm s => "i:" ++ s
-  | .bt s => "b" ++ s
+  | .bt .empty => "be"
+  | .bt (.val t) => "bv" ++ t
+  | .bt (.idx n) => s!"by{n}"
 
 def showOp (o : Op) : String := joinWith "/" (o.name :: o.args.map showArg)
 
